@@ -209,6 +209,7 @@ fn case1<T: Elem>(case: u64, args: &Args, ev: &mut Ev) {
     // baseline: everything owned and in C order
     spec.data_lay = Layout::c(spec.data.ndim());
     spec.x_lay = Layout::c(1);
+    spec.bounds_lay = Some(Layout::c(spec.data.ndim()));
     // explicit axis so that its layout can be varied; favour the dims with all storage kinds
     if spec.x.is_none() {
         spec.x = Some(Array1::from(spec.axis()));
@@ -216,6 +217,7 @@ fn case1<T: Elem>(case: u64, args: &Args, ev: &mut Ev) {
     if rng.chance(0.4) {
         spec.dynamic = true;
     }
+    let individual = matches!(&spec.strat, Strat1::Spline { boundary: Bound::Individual(_), .. });
     let x = spec.axis();
     let plan = make_plan(&mut rng, &x, oor);
     let replay = spec1_json(&spec);
@@ -236,14 +238,21 @@ fn case1<T: Elem>(case: u64, args: &Args, ev: &mut Ev) {
         ("storage-view", Box::new(|s, _| { s.sto = StoCombo::VV; Variation { query_layouts: false, buffer_layouts: false } })),
         ("storage-shared", Box::new(|s, _| { s.sto = StoCombo::SS; Variation { query_layouts: false, buffer_layouts: false } })),
         ("storage-view+owned-axis", Box::new(|s, _| { s.sto = StoCombo::VO; Variation { query_layouts: false, buffer_layouts: false } })),
+        ("boundary-array-layout", Box::new(move |s, r| { s.bounds_lay = Some(Layout::random(r, nd)); Variation { query_layouts: false, buffer_layouts: false } })),
+        ("boundary-array-F-order", Box::new(move |s, _| { s.bounds_lay = Some(Layout::f(nd)); Variation { query_layouts: false, buffer_layouts: false } })),
+        ("boundary-array-reversed", Box::new(move |s, _| { s.bounds_lay = Some(Layout::reversed(nd)); Variation { query_layouts: false, buffer_layouts: false } })),
         ("everything", Box::new(move |s, r| {
             s.data_lay = Layout::random(r, nd);
             s.x_lay = Layout::random(r, 1);
+            s.bounds_lay = Some(Layout::random(r, nd));
             s.sto = *r.pick(&StoCombo::ALL);
             Variation { query_layouts: true, buffer_layouts: true }
         })),
     ];
     for (name, f) in &variants {
+        if name.starts_with("boundary-array") && !individual {
+            continue;
+        }
         let mut s2 = spec.clone();
         let var = f(&mut s2, &mut rng);
         let eff = vh::dynapi::effective_sto1(&s2);
